@@ -944,7 +944,7 @@ Proof.
   intros An Prep AG FN.
   destruct (analyse_state _ _ _ An) as (pr' & P' & S & _). rewrite Prep in P'. inversion P'; subst pr'.
   split; auto. rewrite S.
-  destruct (prepare_ok _ _ Prep AG) as (I0 & _). destruct (prepare_fresh _ _ Prep AG) as (Fs & Fd & _).
+  destruct (prepare_ok _ _ Prep AG) as (I0 & Ns0 & _). destruct (prepare_fresh _ _ Prep AG) as (Fs & Fd & _).
   eapply inv2_reach; [apply passes_reach; exact FN|].
   apply inv2_init; auto.
   - intros i Hi. rewrite Forall_forall in Fs. destruct (Fs (src_at (pr_s0 pr) i)) as (_ & X); auto. apply nth_In; auto.
